@@ -157,10 +157,16 @@ func crashOracle(s *Spec, probes [][]byte, stats *crashStats, crashOps func(w *W
 						if op.Kind == OpDelTo {
 							class = classifyPruneImage(img)
 						}
+						if op.Kind == OpLVFO {
+							class = classifyRollbackImage(img, pre, op.Ver)
+						}
 						if op.Kind == OpSave && class == "other" && indexAheadOfTree(img, pre, postM.Latest) {
 							class = "fast_index_entries_without_label_update"
 						}
 						vv.Facts = map[string]any{"op": opNames[op.Kind], "cut": c, "writes": len(log), "symptom": ferr.Oracle, "class": class}
+						if stepOver(s, hist, vv) {
+							continue
+						}
 						return vv
 					}
 					// repeat the interrupted operation on the image (same options as the interrupted run)
@@ -173,6 +179,9 @@ func crashOracle(s *Spec, probes [][]byte, stats *crashStats, crashOps func(w *W
 					if vv := retryOp(img, cfgBefore, s.Cfg, op, hist, match, cands, names, postM, probes, stats); vv != nil {
 						vv.Detail = fmt.Sprintf("%s interrupted after %d of %d physical writes (image = %s-state): %s", op, c, len(log), match, vv.Detail)
 						vv.Facts = map[string]any{"op": opNames[op.Kind], "cut": c, "writes": len(log), "symptom": "retry"}
+						if stepOver(s, hist, vv) {
+							continue
+						}
 						return vv
 					}
 				}
@@ -224,6 +233,25 @@ func indexAheadOfTree(img, pre *vstore.Store, newV int64) bool {
 		}
 	}
 	return false
+}
+
+// classifyRollbackImage: the records of the versions above the rollback target are partly deleted (some are
+// gone, some are still there).
+func classifyRollbackImage(img, pre *vstore.Store, target int64) string {
+	above := func(st *vstore.Store) map[string]bool {
+		out := map[string]bool{}
+		for _, kv := range st.Dump() {
+			if nk, ok := ref.ParseNodeKey(kv.K); ok && nk.Version > target {
+				out[string(kv.K)] = true
+			}
+		}
+		return out
+	}
+	a, b := above(img), above(pre)
+	if len(a) > 0 && len(a) < len(b) {
+		return "partially_deleted_versions_above_target"
+	}
+	return "other"
 }
 
 // classifyPruneImage: a retained version whose root record is a reference to a root that is stored neither
@@ -374,7 +402,7 @@ func init() {
 	// A multi-flush SaveVersion interrupted after a flush that wrote nodes of the new version but not yet its
 	// root: Load() fails ("version does not exist") because version discovery finds the orphan nodes.
 	matchers["c05_commit_cut_nodes_without_root"] = func(c *MatchCtx) bool {
-		if c.V.Oracle != "onstate" && !strings.HasPrefix(c.V.Oracle, "crash") {
+		if !strings.HasPrefix(c.V.Oracle, "crash") && !strings.HasPrefix(c.V.Oracle, "fault-write") {
 			return false
 		}
 		f := c.V.Facts
@@ -391,10 +419,23 @@ func init() {
 	// latest version, the index is not rebuilt and serves entries of the unfinished commit.
 	matchers["c05_commit_cut_index_ahead_of_tree"] = func(c *MatchCtx) bool {
 		f := c.V.Facts
-		if f == nil || !strings.HasPrefix(c.V.Oracle, "crash") {
+		if f == nil || !(strings.HasPrefix(c.V.Oracle, "crash") || strings.HasPrefix(c.V.Oracle, "fault-write")) {
 			return false
 		}
 		return f["op"] == "SaveVersion" && f["class"] == "fast_index_entries_without_label_update" && (f["symptom"] == "fast" || f["symptom"] == "reads")
+	}
+}
+
+func init() {
+	// A rollback (LoadVersionForOverwriting) whose deletions span several physical batches, interrupted after
+	// the root record of a version above the target was deleted but before its other nodes: version
+	// discovery still finds that version and Load() fails.
+	matchers["c05_rollback_cut_nodes_without_root"] = func(c *MatchCtx) bool {
+		f := c.V.Facts
+		if f == nil || !(strings.HasPrefix(c.V.Oracle, "crash") || strings.HasPrefix(c.V.Oracle, "fault-write")) {
+			return false
+		}
+		return f["op"] == "LoadVersionForOverwriting" && f["class"] == "partially_deleted_versions_above_target" && (f["symptom"] == "load" || f["symptom"] == "state")
 	}
 }
 
@@ -403,7 +444,7 @@ func init() {
 	// root (v,1) that a later version refers to and the write of its re-keyed copy (v,0).
 	matchers["c05_prune_cut_dangling_reference_root"] = func(c *MatchCtx) bool {
 		f := c.V.Facts
-		if f == nil || !strings.HasPrefix(c.V.Oracle, "crash") {
+		if f == nil || !(strings.HasPrefix(c.V.Oracle, "crash") || strings.HasPrefix(c.V.Oracle, "fault-write")) {
 			return false
 		}
 		return f["op"] == "DeleteVersionsTo" && f["class"] == "dangling_reference_root" && (f["symptom"] == "load" || f["symptom"] == "state" || f["symptom"] == "reads" || f["symptom"] == "panic")
